@@ -239,9 +239,15 @@ func c12Extra(rng *rand.Rand, kind string, j int) *SessSpec {
 		sp.API = true
 		sp.Membership = "dynamic"
 		sp.FirstInfo = [2]int{1, 1}
-		if rng.Intn(2) == 0 {
+		if j%3 == 0 {
 			sp.HoldConsAtStart = true
 			sp.Steps = []Step{{Op: "waitblocked", N: 1}, {Op: "rebalanceapi"}, {Op: "waitrebalance", N: 1}, {Op: "releasecons"}, {Op: "waitstop", Ms: 5000}}
+			break
+		}
+		if j%3 == 2 {
+			// ... and every re-opened stream runs to its end while the application's AfterRebalanceEnd handler is still busy
+			sp.HoldConsAtStart = true
+			sp.Steps = []Step{{Op: "waitblocked", N: 1}, {Op: "holdeh", Sel: "ARE"}, {Op: "rebalanceapi"}, {Op: "waitheld", Sel: "ARE"}, {Op: "releasecons"}, {Op: "sleep", Ms: 400}, {Op: "releaseeh"}, {Op: "waitstop", Ms: 5000}}
 			break
 		}
 		// ... or while a slow consumer is working through the backlog
